@@ -97,7 +97,13 @@ def r1_r2_r3_r5a(ctx, F):
     des = []
     for c in b.indirect_calls():
         ob, ov = outer_val(F, b, b.val(c.fnptr))
-        if c.args and 'Result<' in b.locals[c.dest['l']]['ty'] and b.locals[c.dest['l']]['ty'].startswith('std::result::Result<<A as actor::Actor>::Msg'):
+        dty = b.locals[c.dest['l']]['ty']
+        # the decoder is the fn-pointer parameter of spawn() that turns bytes into Result<Msg, _> (the call may
+        # sit in a helper that was given the pointer: its result type is then spelled with the helper's generics)
+        from_param = ov.kind == 'arg' and not ov.projs and 'fn(&' in ob.locals[ov.key]['ty'] and \
+            '[u8]) -> std::result::Result<<A as actor::Actor>::Msg' in ob.locals[ov.key]['ty']
+        if c.args and dty.startswith('std::result::Result<') and \
+                (dty.startswith('std::result::Result<<A as actor::Actor>::Msg') or from_param):
             des.append(c)
     if len(des) != 1:
         raise AnchorMissing('spawn thread: deserialize call (found %d)' % len(des))
@@ -106,8 +112,10 @@ def r1_r2_r3_r5a(ctx, F):
     ctx.check(ok, 'C17-R3', 'on_msg-only-after-deserialize-ok', b,
               good='on_msg is reached only when deserialize returned Ok',
               bad='actor::spawn: on_msg can be called although the datagram did not deserialise')
+    from taint import vals_of
     mv = noref(b.val(om.args[4]))
-    ctx.check(mv == V('call', des[0].bb, ('as Ok', '.0')), 'C17-R3', 'msg-is-deserialised-value', b,
+    mvs = set(noref(x) for x in vals_of(b, mv))
+    ctx.check(mvs == {V('call', des[0].bb, ('as Ok', '.0'))}, 'C17-R3', 'msg-is-deserialised-value', b,
               good='on_msg receives the deserialised message',
               bad='actor::spawn: on_msg receives %r, not the deserialised datagram' % mv)
     rf = b.calls_to('UdpSocket::recv_from')
@@ -115,8 +123,8 @@ def r1_r2_r3_r5a(ctx, F):
     fc = b.call_at(srcv.key) if srcv.kind == 'call' else None
     ok = False
     if fc is not None and fc.is_('From::from') and len(rf) == 1:
-        a = noref(b.val(fc.args[0]))
-        ok = a.kind == 'call' and a.key == rf[0].bb and 'as V4' in a.projs
+        avs = set(noref(x) for x in vals_of(b, noref(b.val(fc.args[0]))))
+        ok = bool(avs) and all(a.kind == 'call' and a.key == rf[0].bb and 'as V4' in a.projs for a in avs)
     ctx.check(ok, 'C17-R3', 'src-is-sender-address', b,
               good='src = Id::from(V4 address returned by recv_from)',
               bad='actor::spawn: the src handed to on_msg is not Id::from(the datagram\'s IPv4 source address)')
